@@ -34,7 +34,12 @@ KIND_TEXT = {
     "udp-packets-mismatch": "udp_packets_from_client_per_location{status} differs from the client datagrams reported",
     "udp-bytes-mismatch": "data_bytes{proto=udp} per key and direction differs from the sums of the datagrams reported "
                           "(an increment was lost or counted twice)",
-    "location-sum-mismatch": "data_bytes_per_location sums differ from the data_bytes per-key sums",
+    "tcp-location-mismatch": "tcp_connections_opened/closed per location differ from the connections of the clients of that "
+                             "location class",
+    "tcp-location-bytes-mismatch": "data_bytes_per_location{proto=tcp} differs from the bytes of the clients of that location",
+    "udp-location-packets-mismatch": "udp_packets_from_client_per_location{location,status} differs from the datagrams reported "
+                                     "for clients of that location class (a datagram was counted under another client's location)",
+    "udp-location-bytes-mismatch": "data_bytes_per_location{proto=udp} differs from the bytes of the clients of that location",
     "counter-decreased": "a counter went down between two scrapes",
 }
 
@@ -90,7 +95,7 @@ def densify(traces):
     for tn, t in enumerate(traces):
         ids = {}
         for r in t:
-            d = {k: v for k, v in r.items() if k in ("ev", "c", "key", "b", "st", "d", "n", "cp", "pt", "tp", "pc", "obs")}
+            d = {k: v for k, v in r.items() if k in ("ev", "c", "key", "loc", "b", "st", "d", "n", "cp", "pt", "tp", "pc", "obs")}
             if "c" in d:
                 d["c"] = ids.setdefault(d["c"], len(ids) + 1)
             out.append(d)
@@ -157,7 +162,7 @@ def report(ctx, res, traces, desc, behs_of_trace, setup):
 def exhaustive(ctx):
     if ctx.cov.get("metricscount_model_checked"):
         return
-    cfg = T.cfg_with("MC_MetricsCount.cfg", MaxOps=5 if ctx.quick else 7)
+    cfg = T.cfg_with("MC_MetricsCount.cfg", MaxOps=4 if ctx.quick else 6)
     r = vlib.tlc(ctx, "MetricsCount", "MC_MetricsCountRun.cfg", workers="auto", timeout=3000, deadlock=False,
                  extra_files={"MC_MetricsCountRun.cfg": cfg})
     ctx.add_tlc(r, "MetricsCount: collectors' counters => sums of per-connection facts (closed per status/key, bytes per key/"
@@ -188,6 +193,18 @@ def _conc(ctx, behs, tag, desc, *, rep, scrapers, group, race=False, rounds=1):
         allout += out
         if "HARNESS-ERROR" in out:
             raise vlib.Inconclusive("metrics-count overlay (%s): %s" % (desc, out[-2500:]))
+        if "fatal error: concurrent map" in out:
+            m = re.search(r"(\S*/prometheus/[^\s:]+\.go:\d+)", out[out.index("fatal error: concurrent map"):])
+            where = m.group(1) if m else "prometheus"
+            for pre in (vlib.REPO.rstrip("/") + "/", "/repo/"):
+                if where.startswith(pre):
+                    where = where[len(pre):]
+            ctx.violation({"module": "metrics", "kind": "concurrent-map-access", "where": where},
+                          "the process died with 'fatal error: concurrent map ...' in the metrics collectors under concurrent "
+                          "reports (%s), first collector frame %s" % (desc, where),
+                          {"module": "MetricsCount", "setup": {"mode": "conc", "rep": rep, "scrapers": scrapers, "group": group},
+                           "output": out[out.index("fatal error: concurrent map"):][:3000]})
+            return None, allout
         if not rows or rows[-1].get("ev") != "Done":
             if race and "WARNING: DATA RACE" in out:
                 return None, allout
